@@ -487,3 +487,53 @@ def _first_diff(a, b, path=""):
                 return d
         return None
     return None if a == b else f"{path}: {a!r} -> {b!r}"
+
+
+def expand_input_targets(model, path):
+    return expand_path(model, path)
+
+
+def check_inputs(model, inputs, vectorize, solver="euler", T=1.0, dt=0.05, only_vars=None):
+    """C08-B.  inputs: {target path (wildcards allowed): array (N,), (N,1) or (N,n)}."""
+    arrs = {k: np.asarray(v, dtype=float) for k, v in inputs.items()}
+    per_var = {}
+    for path, arr in arrs.items():
+        targets = expand_input_targets(model, path)
+        a = arr
+        if a.ndim == 2 and a.shape[1] == 1:
+            a = a[:, 0]
+        for i, tpath in enumerate(targets):
+            col = a if a.ndim == 1 else a[:, i]
+            per_var[tpath] = per_var.get(tpath, 0.0) + col
+    try:
+        df, outputs, _ = run_model(model, T, dt, None, solver, vectorize, inputs=arrs, **({"method": "RK45", "rtol": 1e-9, "atol": 1e-11} if solver == "scipy" else {}))
+    except Exception as exn:
+        return [dict(clause="run accepts a well-formed input request", observed=f"{type(exn).__name__}: {exn}")]
+    fails = []
+    rows = int(round(T / dt))
+    if solver in ("euler", "heun"):
+        _, ref = mdl.spec_fixed_step(model, T, dt, dt, solver, inputs=per_var)
+    else:
+        from scipy.integrate import solve_ivp
+        svars = mdl.state_vars(model)
+        y0 = mdl.initial_state(model)
+
+        def f(t, y):
+            ext = {p: float(np.interp(t, np.linspace(0.0, T, len(a)), a)) for p, a in per_var.items()}
+            dy, _ = mdl.spec_rhs(model, dict(zip(svars, y)), t=t, ext=ext)
+            return [dy[v] for v in svars]
+        times = np.arange(rows) * (T / rows)
+        sol = solve_ivp(f, (0.0, T), [y0[v] for v in svars], t_eval=times, rtol=1e-11, atol=1e-13, method="DOP853", max_step=dt)
+        ref = {v: sol.y[i] for i, v in enumerate(svars)}
+    tol = dict(rtol=1e-7, atol=1e-10) if solver != "scipy" else dict(rtol=2e-5, atol=2e-7)
+    for key, path in outputs.items():
+        if only_vars is not None and path not in only_vars:
+            continue
+        got = np.asarray(df[key], dtype=float).reshape(len(df.index), -1)[:, 0]
+        want = ref[path]
+        if got.shape != want.shape or not np.allclose(got, want, **tol):
+            bad = int(np.argmax(np.abs(got - want))) if got.shape == want.shape else -1
+            fails.append(dict(clause=f"inputs: trajectory equals the spec with the input applied at the right time and unit ({solver})",
+                              var=path, row=bad, observed=float(got[bad]) if bad >= 0 else list(got.shape),
+                              expected=float(want[bad]) if bad >= 0 else list(want.shape)))
+    return fails
